@@ -33,13 +33,13 @@ func init() {
 				jobs = append(jobs, j)
 			}
 			if tier == "thorough" {
-				jobs = append(jobs, cj("op", 0, "d", 19, "wx", 2, "wy", 2), cj("op", 5, "wx", 1, "wy", 1, "zf", 1, "zcap", 3), cj("op", 1, "d", 7, "wx", 2, "wy", 1), cj("op", 3, "wx", 2, "wy", 1))
+				jobs = append(jobs, cj("op", 0, "d", 19, "wx", 2, "wy", 2), cj("op", 5, "wx", 1, "wy", 1, "zf", 1, "zcap", 3))
 			}
 			return jobs
 		},
 		Bounds: map[string]string{
 			"quick":    "Add, Sub (aligned and shifted), Mul (1x1, 2x1), x*x through decBasicSqr (threshold lowered so that the pool path is taken), Quo by a one-word divisor, FMA, Cmp, Int64/Uint64/Int/IsInt/MinPrec, GobEncode, Sqrt (prologue/epilogue with a stubbed iteration for all operand values; the real float64-seeded Newton iteration for six concrete operands at precisions 5..100), Set/Neg/Abs/SetMantExp/MantExp/Copy, special-value operands: every store checked against the ownership tags; every sync.Pool.Get answers nil, recycled (contents havocked) and foreign buffer; operand snapshots (fields and all words up to capacity) compared afterwards. 1-2 word operands, all values.",
-			"thorough": "plus wider Add/Sub, a two-word dividend, dirty receiver for FMA. (Karatsuba multiplication through Decimal.Mul with a lowered threshold was tried at 2x2 and 3x2 words: the rounding of a symbolic Karatsuba product after the pool forks does not finish within 45 minutes and is not registered.)",
+			"thorough": "plus a wider Add and a dirty receiver for FMA. (Karatsuba multiplication through Decimal.Mul with a lowered threshold was tried at 2x2 and 3x2 words: the rounding of a symbolic Karatsuba product after the pool forks does not finish within 45 minutes and is not registered.)",
 		},
 		Outside: []string{
 			"interleavings are not enumerated: the claim is the source-level non-interference argument (disjoint write sets, operands and package-level variables never written, pool buffers exclusive by sync.Pool's contract); the Go runtime, sync.Pool's implementation and compiler reorderings are trusted",
